@@ -39,8 +39,13 @@ AddOK == AddShapeOK /\ (Ev.raised <=> ~Legal(Ev.k, PatsOf(Ev), Ev.mx, g))
 
 Got == {Ev.ret[i][1] : i \in DOMAIN Ev.ret}
 GetShapeOK == Ev.c \in DS
-BudgetsOK == Ev.wm => \A i \in DOMAIN Ev.ret :
-                 \E r \in regs : Reaches(r.k, Ev.c, g) /\ r.p = Ev.ret[i][1] /\ r.mx = Ev.ret[i][2]
+(* Budgets: FILTERS is kept here as the REQUIRED table - per storing datasource the maximum budget   *)
+(* registered so far for a string (add_filter documents the maximum).  A look-up with budgets must  *)
+(* return, for every string, the current maximum of the implementation's own table or of its spec's *)
+(* table (the statement does not say which of the two wins) - never a budget that a later           *)
+(* registration has already raised.                                                                 *)
+BudgetNow(c, p) == {FILTERS[Owner(c)][p], FILTERS[PointOf(c)][p]} \ {0}
+BudgetsOK == Ev.wm => \A i \in DOMAIN Ev.ret : Ev.ret[i][2] \in BudgetNow(Ev.c, Ev.ret[i][1])
 (* skip: a look-up already reported in an earlier validation round (the harness re-validates the  *)
 (* rest of a history after a rejection, so that one finding does not hide what follows it)        *)
 GetOK == /\ GetShapeOK
@@ -70,10 +75,14 @@ Accepts ==
 
 Apply ==
     CASE Ev.ev = "add" ->
-           /\ IF Ev.raised THEN UNCHANGED <<eff, regs>>
+           /\ IF Ev.raised THEN UNCHANGED <<eff, regs, FILTERS>>
               ELSE /\ eff' = [c \in DS |-> IF Reaches(Ev.k, c, g) /\ Judged(c, g) THEN eff[c] \cup PatsOf(Ev) ELSE eff[c]]
                    /\ regs' = regs \cup {[k |-> Ev.k, p |-> p, mx |-> Ev.mx] : p \in PatsOf(Ev)}
-           /\ UNCHANGED <<g, FILTERS, cache, ret, nops, cvars, lastEff>>
+                   /\ FILTERS' = [d \in DS |-> IF d \in Targets(Ev.k, g)
+                                                 THEN [p \in Pat |-> IF p \in PatsOf(Ev) THEN MaxOf(FILTERS[d][p], Ev.mx)
+                                                                     ELSE FILTERS[d][p]]
+                                                 ELSE FILTERS[d]]
+           /\ UNCHANGED <<g, cache, ret, nops, cvars, lastEff>>
       [] Ev.ev = "get" ->
            /\ lastEff' = [lastEff EXCEPT ![Ev.c] = [set |-> TRUE, v |-> Got]]      \* what the previous look-up returned
            /\ UNCHANGED <<vars, regs>>
@@ -102,7 +111,13 @@ DiagGet ==
             ELSE IF extra # {} THEN
                  "LookupIsUnion:extra:lookup-" \o KindOf(c) \o
                  (IF \E p \in extra : \E r \in regs : r.p = p THEN ":registered-elsewhere" ELSE ":never-registered")
-            ELSE "BudgetRegistered:lookup-" \o KindOf(c)
+            ELSE "LookupBudget:" \o
+                 (IF \E i \in DOMAIN Ev.ret : \E r \in regs : r.p = Ev.ret[i][1] /\ r.mx = Ev.ret[i][2]
+                                                               /\ Reaches(r.k, c, g)
+                                                               /\ Ev.ret[i][2] \notin BudgetNow(c, Ev.ret[i][1])
+                  THEN "stale-budget-raised-by-a-later-registration"
+                  ELSE "budget-not-registered-for-this-datasource") \o
+                 ":lookup-" \o KindOf(c)
 
 DiagAdd ==
     IF ~AddShapeOK THEN "add.shape"
@@ -140,7 +155,8 @@ StartOf(t) ==
     /\ eff' = [c \in DS |-> {}]
     /\ regs' = {}
     /\ lastEff' = [c \in DS |-> NoLast]
-    /\ UNCHANGED <<FILTERS, cache, ret, nops, cvars>>
+    /\ FILTERS' = [d \in DS |-> NoFilters]
+    /\ UNCHANGED <<cache, ret, nops, cvars>>
 
 Advance ==
     IF tid < Len(Batch)
